@@ -16,9 +16,10 @@ import time
 
 ROOT = os.path.dirname(os.path.dirname(os.path.abspath(__file__)))
 SPEC = os.path.join(ROOT, "spec")
-HARNESS = os.path.join(ROOT, "harness")
-OUT = os.path.join(ROOT, "out")
-EVID = os.path.join(ROOT, "evidence")
+# Development-only overrides (mutant trials against a scratch worktree): never set by the registered commands.
+HARNESS = os.environ.get("VERIF_HARNESS_DIR") or os.path.join(ROOT, "harness")
+OUT = os.environ.get("VERIF_OUT_DIR") or os.path.join(ROOT, "out")
+EVID = os.environ.get("VERIF_EVID_DIR") or os.path.join(ROOT, "evidence")
 JAR = "/opt/veriftools/tla/tla2tools.jar:/opt/veriftools/tla/CommunityModules-deps.jar"
 
 
